@@ -363,8 +363,15 @@ def run(prog, chk):
     push = [s.node for s, l, r in st if l in heads_ and r == "this"]
     save = [s.node for s, l, r in st if l == "this->next" and r in heads_]
     frz = [s.node for s in q.stores(f) if f.r(s.lhs) in ("this->begin", "this->end")]
-    if push and save and all(q.reaches(f, a, b) for a in save for b in push) and len(frz) >= 2:
-        chk.ok("C12.e", f, "activation pushed on the signal's chain, previous head saved, range frozen", where, "stores in order", evals=3)
+    # every activation joins the chain - the innermost one is what ~Emitter invalidates - so no path from the save may skip the push
+    skipped = [a for a in save if f.node_pos(a) is not None and f.find_path(f.node_pos(a), {f.exit_pos()}, avoid=q.pos_of(f, push)) is not None]
+    if push and save and skipped:
+        chk.bad("C12.e", f, "activation-push-conditional", f.where(skipped[0]),
+                "after saving the previous head in `next` a path reaches the end of the constructor without `data->activation = this`: a nested "
+                "emission is then not on the chain, ~Emitter invalidates only the outer activation, and the nested emission keeps walking the "
+                "destroyed slot list (slots called after their emitter is gone)", evals=3)
+    elif push and save and all(q.reaches(f, a, b) for a in save for b in push) and len(frz) >= 2:
+        chk.ok("C12.e", f, "activation pushed on the signal's chain, previous head saved, range frozen", where, "stores in order, push on every path from the save", evals=3)
     else:
         chk.bad("C12.e", f, "activation-push", where, "the activation constructor must save the previous head in `next`, push itself on data->activation and freeze begin/end")
     inv0 = [x for x in f.d.get("inits", []) if x.get("field") == "invalidated"]
